@@ -219,6 +219,14 @@ impl AsyncSmtpConnection {
     ) -> Result<(), Error> {
         if self.server_info.supports_feature(Extension::StartTls) {
             try_smtp!(self.command(Starttls).await, self);
+            if !self.stream.buffer().is_empty() {
+                // anything received in clear after the STARTTLS reply must not be
+                // interpreted as coming from the encrypted session
+                self.abort().await;
+                return Err(error::response(
+                    "unexpected data received in clear after the STARTTLS reply",
+                ));
+            }
             self.stream.get_mut().upgrade_tls(tls_parameters).await?;
             #[cfg(feature = "tracing")]
             tracing::debug!("connection encrypted");
